@@ -85,11 +85,23 @@ func c19PrintInl(in []c19Inl) string {
 		case "bare":
 			b.WriteString(x.T)
 		case "em":
-			b.WriteString("*" + c19PrintInl(x.Kids) + "*")
+			if x.P == "alt" {
+				b.WriteString("_" + c19PrintInl(x.Kids) + "_")
+			} else {
+				b.WriteString("*" + c19PrintInl(x.Kids) + "*")
+			}
 		case "strong":
-			b.WriteString("**" + c19PrintInl(x.Kids) + "**")
+			if x.P == "alt" {
+				b.WriteString("__" + c19PrintInl(x.Kids) + "__")
+			} else {
+				b.WriteString("**" + c19PrintInl(x.Kids) + "**")
+			}
 		case "strike":
-			b.WriteString("~~" + c19PrintInl(x.Kids) + "~~")
+			if x.P == "alt" {
+				b.WriteString("~" + c19PrintInl(x.Kids) + "~")
+			} else {
+				b.WriteString("~~" + c19PrintInl(x.Kids) + "~~")
+			}
 		case "link":
 			b.WriteString("[" + c19PrintInl(x.Kids) + "](http://x.y)")
 		case "code":
@@ -597,6 +609,23 @@ func c19InlineVariants() (names []string, vs [][]c19Inl, oneLine []bool) {
 	add("em>code", true, sp("em", cd("a")))
 	add("strong>code", true, sp("strong", cd("a")))
 	add("em>link", true, sp("em", sp("link", tx("a"))))
+	// a span inside a span with text on both sides of the inner one, for every ordered pair of kinds - also the
+	// same kind twice, written with the other delimiter (seed C19-d2)
+	alt := func(k string, kids ...c19Inl) c19Inl { x := sp(k, kids...); x.P = "alt"; return x }
+	for _, o := range []string{"em", "strong", "strike", "link"} {
+		for _, i := range []string{"em", "strong", "strike"} {
+			if o == "strike" && i == "strike" {
+				continue // a strike-through inside a strike-through is not something CommonMark/GFM define
+			}
+			inner := sp(i, tx("b"))
+			if o == i {
+				inner = alt(i, tx("b"))
+			}
+			add(o+">"+i+"-mid", true, sp(o, tx("a "), inner, tx(" 1")))
+		}
+	}
+	add("em-alt", true, tx("a "), alt("em", tx("b")), tx(" 1"))
+	add("strong-alt", true, tx("a "), alt("strong", tx("b")), tx(" 1"))
 	// visible characters written as backslash escapes and character references
 	add("escape-star", true, tx("a"), lit("*", "\\*"), tx("b"))
 	add("escape-underscore-hash", true, lit("_", "\\_"), tx("a"), lit("#", "\\#"))
